@@ -12,6 +12,7 @@ import (
 	"sort"
 	"strings"
 	"sync/atomic"
+	"syscall"
 	"testing"
 	"time"
 )
@@ -19,7 +20,7 @@ import (
 func TestVerifC16(t *testing.T) {
 	vfMain(t, vfCheck{
 		ID: "C16", Level: "exploration",
-		Rule:        "os-backed server: real directories of each size in the tier's size list (quick: around the 128-entry batch edges up to 300; thorough: every size 0..300) with awkward names (spaces, newlines, non-UTF-8, hidden, and directories in which every name has 150-250 bytes so that one batch exceeds 32 KiB); request server: MaxFilelist in {1,2,3,7,(100)} x every size 0..2*batch+3 x lister behaviours {EOF with the last entries, EOF on the following call, short batches with nil error, listers that emit . and ..} x name sets. Oracle: multiset equality of (name,size,mode,mtime) against the directory / the lister's entries, READDIR round trips bounded, no stuck state. A class is (server, batch, size, behaviour).",
+		Rule:        "os-backed server: real directories of each size in the tier's size list (quick: around the 128-entry batch edges up to 300; thorough: every size 0..300) with awkward names (spaces, newlines, non-UTF-8, hidden, and directories in which every name has 150-250 bytes so that one batch exceeds 32 KiB); request server: MaxFilelist in {1,2,3,7,(100)} x every size 0..2*batch+3 x lister behaviours {EOF with the last entries, EOF on the following call, short batches with nil error, listers that emit . and ..} x name sets. Oracle: multiset equality of (name,size,mode,mtime,owner; request-server entries without owner, with FileInfoUidGid, and with FileInfoUidGid over a Stat_t of another owner) against the directory / the lister's entries, READDIR round trips bounded (a listing still asking after 2000 requests is cut and judged non-terminating), no stuck state. A class is (server, batch, size, behaviour).",
 		Assumptions: []string{"entry names are non-empty and contain no '/' (the client applies path.Base)", "listers make progress (a lister returning (0,nil) forever is outside the ListerAt contract)", "MaxFilelist is a package-level variable, changed only between sessions"},
 		Units: func(tier vfTier, seed uint64) int {
 			if tier == vfThorough {
@@ -51,6 +52,28 @@ func (i c16Info) Mode() os.FileMode  { return i.mode }
 func (i c16Info) ModTime() time.Time { return time.Unix(i.mtime, 0) }
 func (i c16Info) IsDir() bool        { return i.mode.IsDir() }
 func (i c16Info) Sys() any           { return nil }
+
+// c16Owned reports its owner through FileInfoUidGid; sys, if set, is a Stat_t with ANOTHER owner
+// (a handler wrapping a local file and mapping ownership): the documented precedence is the callbacks.
+type c16Owned struct {
+	c16Info
+	uid, gid uint32
+	sys      any
+}
+
+func (i c16Owned) Uid() uint32 { return i.uid }
+func (i c16Owned) Gid() uint32 { return i.gid }
+func (i c16Owned) Sys() any    { return i.sys }
+
+func c16Owner(fi os.FileInfo) string {
+	switch st := fi.Sys().(type) {
+	case *FileStat:
+		return fmt.Sprintf("%d:%d", st.UID, st.GID)
+	case *syscall.Stat_t:
+		return fmt.Sprintf("%d:%d", st.Uid, st.Gid)
+	}
+	return "?"
+}
 
 // c16Lister implements the legal ListAt behaviours.
 type c16Lister struct {
@@ -120,18 +143,24 @@ func c16Names(r *vfRand, n int, style int) []string {
 	return out
 }
 
-func c16Key(name string, size int64, mode os.FileMode, mtime int64) string {
-	return fmt.Sprintf("%q|%d|%v|%d", name, size, mode, mtime)
+func c16Key(name string, size int64, mode os.FileMode, mtime int64, owner string) string {
+	return fmt.Sprintf("%q|%d|%v|%d|%s", name, size, mode, mtime, owner)
 }
 
 // c16List runs Client.ReadDir under the stuck detector and counts READDIR requests.
 func c16List(u *vfUnit, sess *vfSession, dir, label string) ([]os.FileInfo, int, bool) {
 	var readdirs atomic.Int32
+	var runaway atomic.Bool
 	var fr vfFramer
 	sess.Ctl.Tap(vfC2S, func(p []byte) {
 		for _, b := range fr.Feed(p) {
 			if len(b) > 0 && b[0] == rfReaddir {
-				readdirs.Add(1)
+				// termination in logical steps: no directory here has more than ~300 entries and every
+				// legal batch makes progress, so a listing that is still asking after 2000 READDIR
+				// requests does not terminate. The connection is cut so that the call can be judged.
+				if readdirs.Add(1) == 2000 && runaway.CompareAndSwap(false, true) {
+					go sess.cEnd.ForceClose()
+				}
 			}
 		}
 	})
@@ -139,12 +168,20 @@ func c16List(u *vfUnit, sess *vfSession, dir, label string) ([]os.FileInfo, int,
 	var ents []os.FileInfo
 	var err error
 	done := vfGo(func() { ents, err = sess.C.ReadDir(dir) })
+	defer func() {
+		if runaway.Load() {
+			u.Violation("listing-does-not-terminate:"+label, fmt.Sprintf("ReadDir (%s) was still sending READDIR requests after 2000 round trips; the connection was cut", label), map[string]any{"case": label})
+		}
+	}()
 	if w, dump := vfAwait(done, 120*time.Second); w != vfDone {
 		if w == vfStuck {
 			u.Violation("listing-hang:"+label, fmt.Sprintf("ReadDir does not terminate (%s)\n%s", label, vfTrim(dump, 2500)), map[string]any{"case": label})
 		} else {
 			u.Inconclusive("ReadDir %s: wall-clock cap", label)
 		}
+		return nil, int(readdirs.Load()), false
+	}
+	if err != nil && runaway.Load() {
 		return nil, int(readdirs.Load()), false
 	}
 	if err != nil {
@@ -157,7 +194,7 @@ func c16List(u *vfUnit, sess *vfSession, dir, label string) ([]os.FileInfo, int,
 func c16Compare(u *vfUnit, label string, got []os.FileInfo, want []string) {
 	var g []string
 	for _, e := range got {
-		g = append(g, c16Key(e.Name(), e.Size(), e.Mode(), e.ModTime().Unix()))
+		g = append(g, c16Key(e.Name(), e.Size(), e.Mode(), e.ModTime().Unix(), c16Owner(e)))
 	}
 	sort.Strings(g)
 	w := append([]string(nil), want...)
@@ -254,7 +291,7 @@ func c16OS(u *vfUnit, part, parts int) {
 					u.Inconclusive("cannot create %q: %v", nm, err)
 					return
 				}
-				want = append(want, c16Key(fi.Name(), fi.Size(), fi.Mode(), fi.ModTime().Unix()))
+				want = append(want, c16Key(fi.Name(), fi.Size(), fi.Mode(), fi.ModTime().Unix(), c16Owner(fi)))
 			}
 			label := fmt.Sprintf("Server/alloc=%v/n=%d/names=%d", alloc, n, style)
 			u.Eval(label)
@@ -312,8 +349,19 @@ func c16RS(u *vfUnit, part, parts int) {
 							mode |= os.ModeDir
 						}
 						inf := c16Info{nm, int64(j*31 + 1), mode, 1500000000 + int64(j)}
-						l.ents = append(l.ents, inf)
-						want = append(want, c16Key(nm, inf.size, mode, inf.mtime))
+						switch j % 3 {
+						case 1:
+							o := c16Owned{c16Info: inf, uid: uint32(2000 + j), gid: uint32(3000 + j)}
+							l.ents = append(l.ents, o)
+							want = append(want, c16Key(nm, inf.size, mode, inf.mtime, fmt.Sprintf("%d:%d", o.uid, o.gid)))
+						case 2:
+							o := c16Owned{c16Info: inf, uid: uint32(4000 + j), gid: uint32(5000 + j), sys: &syscall.Stat_t{Uid: 65534, Gid: 65533, Nlink: 1}}
+							l.ents = append(l.ents, o)
+							want = append(want, c16Key(nm, inf.size, mode, inf.mtime, fmt.Sprintf("%d:%d", o.uid, o.gid)))
+						default:
+							l.ents = append(l.ents, inf)
+							want = append(want, c16Key(nm, inf.size, mode, inf.mtime, "0:0"))
+						}
 					}
 					if dots && n > 1 {
 						// . and .. in the middle as well
